@@ -103,11 +103,11 @@ def pmap(fn, tasks, nproc=None, chunksize=1):
         return []
     nproc = min(nproc or NPROC, len(tasks))
     bigframe.prepare()
-    if nproc <= 1 or os.environ.get("VERIF_SERIAL"):
+    if os.environ.get("VERIF_SERIAL"):
         res = [_call((fn, t)) for t in tasks]
     else:
         ctx = multiprocessing.get_context("fork")
-        with ctx.Pool(nproc) as pool:
+        with ctx.Pool(max(1, nproc)) as pool:  # always a forked child: the parent never runs the library
             res = pool.map(_call, [(fn, t) for t in tasks], chunksize=chunksize)
     out = []
     for status, val in res:
